@@ -47,7 +47,13 @@ func (f *Field) resolve(file *File) error {
 }
 
 func (f *Field) resolved() error {
-	ref := f.Type.Ref
+	// Service types are not allowed, also as list elements
+	type_ := f.Type
+	for type_.Kind == KindList && type_.Element != nil {
+		type_ = type_.Element
+	}
+
+	ref := type_.Ref
 	if ref == nil {
 		return nil
 	}
